@@ -99,17 +99,36 @@ newline"`)
 		for j := 0; j < 4; j++ {
 			fixedBlock = append(fixedBlock, buildSessionCase(rnd(), "", 6+j*3))
 		}
+		// a three level chain whose leaf re-declares a variable with the
+		// default of its grandparent, shadowing the parent's
+		base := `(defflavor fx-base ((size 1) (tag "b")) () :gettable-instance-variables :settable-instance-variables :inittable-instance-variables)`
+		mid := `(defflavor fx-mid ((size 2) (weight 5)) (fx-base) :gettable-instance-variables :settable-instance-variables :inittable-instance-variables)`
+		leaf := `(defflavor fx-leaf ((size 1) (tag "b") (weight 6) (extra :k)) (fx-mid) :gettable-instance-variables :inittable-instance-variables)`
+		chainProbes := func(fl string) []string {
+			return []string{
+				fmt.Sprintf("(let ((i (make-instance '%s))) (list (slot-value i 'size) (slot-value i 'tag) (send i :size)))", fl),
+				fmt.Sprintf("(let ((i (make-instance '%s))) (send i :set-size 9) (send i :size))", fl),
+			}
+		}
+		leafProbes := append(chainProbes("fx-leaf"),
+			"(let ((i (make-instance 'fx-leaf :weight 7))) (list (slot-value i 'weight) (slot-value i 'extra) (slot-value i 'size)))",
+			"(let ((i (make-instance 'fx-leaf))) (send i :which-operations))")
+		fixedBlock = append(fixedBlock,
+			Case{Mode: "def", Kind: "flavor", Margins: []int{60}, Items: []Item{{Kind: "flavor", Name: "fx-leaf", Info: "inherits:3",
+				Pre: []string{base, mid}, Forms: []string{leaf}, Obj: "(find-flavor 'fx-leaf)", Probes: leafProbes}}},
+			Case{Mode: "def", Kind: "flavor", Margins: []int{24}, Items: []Item{{Kind: "flavor", Name: "fx-mid", Info: "inherits:2",
+				Pre: []string{base}, Forms: []string{mid}, Obj: "(find-flavor 'fx-mid)", Probes: chainProbes("fx-mid")}}},
+			Case{Mode: "session", Kind: "session", Margins: []int{80}, Items: []Item{
+				{Kind: "flavor", Name: "fx-base", Forms: []string{base}, Probes: chainProbes("fx-base")},
+				{Kind: "flavor", Name: "fx-mid", Info: "inherits:2", Forms: []string{mid}, Probes: chainProbes("fx-mid")},
+				{Kind: "flavor", Name: "fx-leaf", Info: "inherits:3", Forms: []string{leaf, "(defvar *fx-leaf-inst* (make-instance 'fx-leaf :extra 3))"},
+					Probes: append(leafProbes, "(list (slot-value *fx-leaf-inst* 'size) (slot-value *fx-leaf-inst* 'extra))")},
+			}})
 		for _, feat := range sessionFeats {
 			// the first one holds nothing but the construct: the smallest witness
 			for j := 0; j < 4; j++ {
 				fixedBlock = append(fixedBlock, buildSessionCase(rnd(), feat, j*2))
 			}
-		}
-		for j := 0; j < 2; j++ {
-			c := buildSessionCase(rnd(), "", 4)
-			c.NoLock = true
-			c.Feat = "swank-unlocked"
-			fixedBlock = append(fixedBlock, c)
 		}
 	})
 	return fixedBlock
@@ -157,6 +176,9 @@ func execDef(x *fw.Ctx, c Case) {
 	it := c.Items[0]
 	m := c.Margins[0]
 	x.Cover("def:" + c.Kind)
+	if strings.HasPrefix(it.Info, "inherits:") {
+		x.Cover("flavor-" + it.Info)
+	}
 	if c.Feat != "" {
 		x.Cover("dirty:" + c.Feat)
 	} else {
@@ -171,7 +193,6 @@ func execDef(x *fw.Ctx, c Case) {
 
 	// world A: the original
 	var a Req
-	a.LockSwank = true
 	for _, f := range it.Pre {
 		a.Steps = append(a.Steps, Step{Op: "eval", Src: f})
 	}
@@ -236,7 +257,6 @@ func execDef(x *fw.Ctx, c Case) {
 
 	// world B: a fresh process evaluates the text
 	var b Req
-	b.LockSwank = true
 	for _, f := range it.Pre {
 		b.Steps = append(b.Steps, Step{Op: "eval", Src: f})
 	}
@@ -394,7 +414,6 @@ func execSession(x *fw.Ctx, c Case) {
 
 	type pref struct{ item, k int }
 	var a Req
-	a.LockSwank = !c.NoLock
 	var formItem []int
 	for i, it := range c.Items {
 		for _, f := range it.Forms {
@@ -438,6 +457,9 @@ func execSession(x *fw.Ctx, c Case) {
 	for i, it := range c.Items {
 		if !rejected[i] {
 			x.Cover("item:" + it.Kind)
+			if strings.HasPrefix(it.Info, "inherits:") {
+				x.Cover("flavor-" + it.Info)
+			}
 		}
 	}
 	if len(rejected) == len(c.Items) {
@@ -463,7 +485,6 @@ func execSession(x *fw.Ctx, c Case) {
 
 	// world B: fresh process, load, snapshot again, probe
 	var b Req
-	b.LockSwank = !c.NoLock
 	b.Steps = append(b.Steps, Step{Op: "load", Path: s1}, Step{Op: "snapshot", Margin: m, Path: s2})
 	for _, p := range probes {
 		b.Steps = append(b.Steps, Step{Op: "eval", Src: c.Items[p.item].Probes[p.k]})
